@@ -1,6 +1,6 @@
 //! Terminal rendering logic
 use crate::{
-    Face, Glyph, Image, ImageHandler, KittyImageHandler, Position, Size, Surface, SurfaceMut,
+    Face, FaceAttrs, Glyph, Image, ImageHandler, KittyImageHandler, Position, Size, Surface, SurfaceMut,
     SurfaceMutView, SurfaceOwned, SurfaceView, Terminal, TerminalCaps, TerminalCommand,
     TerminalEvent, TerminalSize, TerminalWaker,
     decoder::{Decoder, TTYCommandDecoder, Utf8Decoder},
@@ -403,7 +403,16 @@ impl TerminalRenderer {
                     }
                     pos.col += repeats;
                     // erase if it is more efficient
-                    if repeats > 4 {
+                    // NOTE: erase paints only the background, attributes that are visible on
+                    //       a blank cell (underline, strike, reverse) would be lost
+                    let plain = new
+                        .face
+                        .attrs
+                        .remove(FaceAttrs::BOLD)
+                        .remove(FaceAttrs::ITALIC)
+                        .remove(FaceAttrs::BLINK)
+                        .is_empty();
+                    if repeats > 4 && plain {
                         // NOTE: erase is not moving cursor
                         term.execute(TerminalCommand::EraseChars(repeats))?;
                     } else {
